@@ -5,15 +5,19 @@ Line-protocol driver for C14: per line
 answer {"renders":[the string that is hashed, per node],"inputs":[[input names] per node],
         "labels":[[label per source node] per from_source call]}
 pyval: number (int) | string | {"f":repr} (float) | true/false | null | [ … ] (list) | {"t":[ … ]} (tuple) | {"d":[[key,pyval]…]} (dict)
+       | {"s":[ … ]} (set, elements as iterated) | {"fs":[ … ]} (frozenset)
 
 optional "heapops": one entry per `transform` whose func hands back an existing action (or the receiver):
   {"heap":[cell…],"a":i,"kind":"lookup"|"self","targets":[cell index per parameter],"dim":name|[name,[labels]],"axis":n}
   cell = {"dims":[[name,[labels],indexed]…],"scalars":[[name,label]…],"nodes":[node-object id per position, row-major]}
   | {"heap":[cell…],"a":i,"kind":"combine","method":"stack"|"concat","d":dim,"keep":bool}   (dimension of size 1)
   | {"heap":[cell…],"a":i,"kind":"alias"}                                                  (select / iselect without criteria)
+  | {"heap":[cell…],"a":i,"kind":"alias","crit":[name,value],"drop":bool}                  (ONE criterion naming a scalar coordinate)
+  | {"heap":[cell…],"a":i,"b":j,"kind":"join","dim":name|[name,[labels]],"match":bool}     (Action.join between two objects)
+  | {"heap":[cell…],"a":i,"b":j,"kind":"arith","fn":name}                                 (a.add(b) …; the nodes of the result are new: reported as 0)
 answer "heapops": [{"heap":[the cells that existed before, after the call],"result":cell,"cell":index,
                     "alias_of":index of the existing cell that IS the result | null} | {"err":class}]
-(`Names.transformH .always`, `Names.combineH`, `Names.selectH` — the heap model).
+(`Names.transformH .always`, `Names.combineH`, `Names.selectH`, `Names.joinH .localVar`, `Names.arithH .localVar` — the heap model).
 -/
 import EkwVerif.Drive.Util
 import EkwVerif.Model.Names
@@ -37,7 +41,11 @@ partial def pyOfJson (j : Json) : PyVal :=
         | .ok (.arr a) => .dict (a.toList.map (fun p => match p with
             | .arr #[k, v] => ((match k with | .str s => s.toList | _ => []), pyOfJson v)
             | _ => ([], .none)))
-        | _ => .none
+        | _ => match j.getObjVal? "s" with
+          | .ok (.arr a) => .set false (a.toList.map pyOfJson)
+          | _ => match j.getObjVal? "fs" with
+            | .ok (.arr a) => .set true (a.toList.map pyOfJson)
+            | _ => .none
 
 def strOf (s : Str) : String := String.ofList s
 
@@ -121,7 +129,13 @@ def heapOp (j : Json) : Json :=
   let res : Except Err (Heap × Nat) :=
     match getStr j "kind" with
     | "combine" => combineH h (getStr j "method") [] a (getStr j "d") 0 (getBool j "keep")
-    | "alias" => selectH h a none false
+    | "join" => joinH .localVar h a (getNat j "b") (dimArgOf ((j.getObjVal? "dim").toOption.getD Json.null)) (getBool j "match")
+    | "arith" => arithH .localVar h (getStr j "fn") a (getNat j "b")
+    | "alias" =>
+      -- `select({})`, or ONE criterion that names a scalar coordinate (`"crit":[name,value]`)
+      match (j.getObjVal? "crit").toOption with
+      | some (.arr #[d, v]) => selectH h a (some (asStr d, Sel.one (coordOfJson v))) (getBool j "drop")
+      | _ => selectH h a none false
     | kind =>
       let f : TFunc Nat := if kind == "self" then .self else .lookup (fun p => targets.getD p h.length)
       transformH .always h a f (List.range targets.length) (dimArgOf ((j.getObjVal? "dim").toOption.getD Json.null)) (getNat j "axis")
